@@ -15,6 +15,7 @@ pub const MAX_EVENTS: usize = 4096;
 pub const MAX_ARENAS: usize = 8;
 pub const REDZONE: usize = 64;
 pub const PAGE: usize = 4096;
+pub const BIG_ALIGN: usize = 128 << 10;
 /// simulated machine size: anything larger is always refused ("exhaustion")
 pub const MACHINE_BYTES: usize = 16 << 20;
 pub const MACHINE_MAX_ALIGN: usize = 1 << 20;
@@ -575,8 +576,12 @@ impl State {
                 j
             }
         };
-        let real_align = align.max(PAGE);
-        let pre = real_align;
+        // Chunk bases are a pure function of the seed modulo BIG_ALIGN (128 KiB), the strictest
+        // alignment the arena workloads request: a 64 KiB-aligned block carved out of a chunk that
+        // was itself requested with alignment 16 must land at the same chunk-relative offset in
+        // every process, in a solo and in an interleaved run, and for both twins of a twin run.
+        let real_align = align.max(BIG_ALIGN);
+        let pre = align.max(PAGE);
         let real_size = pre + PAGE + size + REDZONE;
         let real = unsafe { System.alloc(Layout::from_size_align_unchecked(real_size, real_align)) };
         if real.is_null() {
